@@ -112,9 +112,10 @@ class C11Bounded(Bounded):
         rdocs = [{"title": "r1", "name": "r1", "logsource": {"category": "c", "product": "p"}, "detection": {"sel": {"a": 1}, "condition": "sel"}},
                  {"title": "r2", "name": "r2", "logsource": {"category": "c"}, "detection": {"sel": {"b": 2}, "condition": "sel"}},
                  {"title": "r3", "name": "r3", "logsource": {"category": "d"}, "detection": {"sel": {"c": 3}, "condition": "sel"}}]
-        fdocs = [{"title": "f1", "logsource": {"category": "c"}, "filter": {"rules": "any", "x": {"u": "adm"}, "condition": "not x"}},
-                 {"title": "f2", "logsource": {"category": "c", "product": "p"}, "filter": {"rules": ["r1"], "y": {"v": "svc"}, "condition": "not y"}},
-                 {"title": "f3", "logsource": {"category": "d"}, "filter": {"rules": ["r3"], "z": {"w": "sys"}, "condition": "not z"}}]
+        # (hand-numbered ids that share their leading digits, and detections of the same name in two filters that hit the same rule)
+        fdocs = [{"title": "f1", "id": "00000000-0000-0000-0000-000000000001", "logsource": {"category": "c"}, "filter": {"rules": "any", "x": {"u": "adm"}, "condition": "not x"}},
+                 {"title": "f2", "id": "00000000-0000-0000-0000-000000000002", "logsource": {"category": "c", "product": "p"}, "filter": {"rules": ["r1"], "x": {"v": "svc"}, "condition": "not 1 of x*"}},
+                 {"title": "f3", "id": "00000000-0000-0000-0000-000000000003", "logsource": {"category": "d"}, "filter": {"rules": ["r3"], "z": {"w": "sys"}, "condition": "not z"}}]
         for fperm in itertools.permutations(range(3)):
             ev += 1
             nontriv += 1
